@@ -115,7 +115,7 @@ CBMC_FLAGS = ['--unwinding-assertions', '--signed-overflow-check', '--undefined-
               '--bounds-check', '--pointer-check', '--pointer-primitive-check', '--object-bits', '12', '--slice-formula']
 
 def goto_cc(out, sources, defines=(), includes=()):
-    cmd = ['goto-cc', '-o', out] + ['-D' + x for x in defines] + ['-I' + x for x in includes] + ['-I' + os.path.join(VERIF, 'rt')] + list(sources)
+    cmd = ['goto-cc', '-o', out, '-D__CPROVER__'] + ['-D' + x for x in defines] + ['-I' + x for x in includes] + ['-I' + os.path.join(VERIF, 'rt')] + list(sources)
     run(cmd)
     return out
 
@@ -170,7 +170,8 @@ def list_loops(binary):
 class GotoLib:
     """generated C + runtime + models compiled once to goto objects; harnesses are linked per instance"""
     def __init__(self, name, csources, defines, includes):
-        self.d = scratch(); self.defines = list(defines); self.includes = list(includes) + [self.d, os.path.join(VERIF, 'harness'), os.path.join(VERIF, 'models')]
+        # goto-cc does not predefine __CPROVER__ (cbmc's own front end does): the runtime/models select their CBMC variants on it
+        self.d = scratch(); self.defines = ['__CPROVER__'] + list(defines); self.includes = list(includes) + [self.d, os.path.join(VERIF, 'harness'), os.path.join(VERIF, 'models')]
         self.objs = []
         def one(src):
             out = os.path.join(self.d, '%s.%s.gb' % (name, os.path.basename(src)))
